@@ -13,7 +13,7 @@ TRUSTED_BASE = [
     "Lean 4.33.0 kernel (lake build; thorough tier also leanchecker)",
     "axioms allowed: propext, Classical.choice, Quot.sound (audited per theorem with #print axioms on every run)",
     "hand-written Lean model tied to /repo by differential correspondence (this run's counts below), not by proof",
-    "translator harness/extract.py for the constants in lean/Wheatley/Generated",
+    "translator harness/extract.py + genprobe.py for lean/Wheatley/Generated: every constant read off the source text and measured on the running code, generated arithmetic validated against the running functions through the driver",
     "harness fakes: stub socketio, fake Ringing Room / HTTP, virtual clock",
 ]
 
